@@ -35,6 +35,7 @@ Fixpoint pnorm (e : aexp) : option poly :=
                else None
   | Neg a => match pnorm a with Some P => Some (pscale (-(1)) P) | None => None end
   | Pow a n => match pnorm a with Some P => Some (ppow P n) | None => None end
+  | IfB _ _ _ | NotB _ | LtB _ _ => None
   end.
 
 (* structural partial derivative: Leibniz rule, one term per occurrence of p_i *)
